@@ -103,7 +103,14 @@ pub fn cmd_record(args: &HashMap<String, String>) -> i32 {
     let rec = Recorder::install();
     let mut rng = SmallRng::seed_from_u64(seed ^ 0x9e3779b97f4a7c15);
     let mut db = Some(Db::open_or_create(&options(&dir, &u.cols, seed, false)).expect("create"));
-    rec.take();
+    // index growth preamble (columns marked `grow`): afterwards record ids run ahead of commit ids
+    if let Err(e) = grow_preamble(db.as_ref().unwrap(), &u.cols, seed % 2 == 0) {
+        println!("{}", json!({"events": 0, "problems": [e]}));
+        return 1
+    }
+    let pre = rec.take();
+    let init_cid = pre.iter().filter(|e| e["e"] == "Commit").filter_map(|e| e["cid"].as_u64()).max().unwrap_or(0);
+    let init_rid = pre.iter().filter(|e| e["e"] == "EndRecord").filter_map(|e| e["a"][0].as_u64()).max().map(|x| x + 1).unwrap_or(1);
     let mut problems: Vec<String> = Vec::new();
     let mut gen = 0;
     let mut ncrash = 0usize;
@@ -296,7 +303,7 @@ pub fn cmd_record(args: &HashMap<String, String>) -> i32 {
     Recorder::uninstall();
     let events = rec.take();
     write_trace(&args["out"], &events);
-    let summary = json!({"events": events.len(), "crashes": ncrash, "restarts": nrestart, "problems": problems, "universe": u.describe()});
+    let summary = json!({"events": events.len(), "crashes": ncrash, "restarts": nrestart, "problems": problems, "universe": u.describe(), "init_rid": init_rid, "init_cid": init_cid});
     println!("{}", summary);
     let _ = std::fs::remove_dir_all(&root);
     if problems.is_empty() {
